@@ -17,15 +17,20 @@ MANIFEST = {
                   "payload = box, equal Size()); C08_copy_samples (CopySampleData, every work buffer length and content, every run of "
                   "chunks covering samples a..b inside the payload: both modes write the concatenation of the samples' bytes; loop "
                   "invariant written ++ workSpace[0..workPos) = prefix), C08_zero_size_at_eof_refuted (pinned `for {` refill loop). "
-                  "C08_tree_equal is explored only (search: Info dump, sizes and positions of both trees on synthesized progressive and "
-                  "fragmented files) beyond the top-level walk. The model is tied to /repo on every run by running it (extracted) "
+                  "C08_tree_equal (DecodeFile's top-level walk over any sequence of boxes, mdat anywhere, 8/16-byte headers: both modes "
+                  "give the same type/StartPos/Size per box and LargeSize per mdat; boxes other than mdat are opaque because the same Go "
+                  "decoder runs on them in both modes - below the top level the equality is explored by the search: Info dump, sizes and "
+                  "positions of both trees on synthesized progressive and fragmented files). The model is tied to /repo on every run by running it (extracted) "
                   "against the real code on ALL (start,size) ranges (valid and invalid) of small mdats, random ranges of large ones, all "
                   "sample intervals x work buffers {0,1,2,3,7,8,4096} of synthesized progressive files; the theorems' hypotheses are "
                   "evaluated by the model driver on the chunk lists the real GetContainingChunks returned.",
     "level_note": "Trusted: Coq kernel, extraction (ExtrOcamlBasic), OCaml/Go glue, and the correspondence being only as good as its "
                   "generated inputs. The io.Writer never fails; DataParts (output only) is not modelled; the empty range AT the payload "
                   "end is not counted as a valid range (in memory: error, lazy: empty result). Sub-boxes of moov etc. are decoded by the "
-                  "same Go code in both modes and are opaque in the model.",
+                  "same Go code in both modes and are opaque in the model. C08_copy_samples takes the chunk list returned by "
+                  "GetContainingChunks as given and assumes it is a run of consecutive chunks covering a..b (chunks_cover; that "
+                  "GetContainingChunks delivers this is C09_containing_chunks, and the driver evaluates chunks_cover on every list the "
+                  "real function returned); cap(mdat.Data) = len is assumed for the in-memory slice expressions.",
 }
 
 
@@ -52,7 +57,7 @@ def run(ctx):
     pr = ctx.proofs("c08", "C08Theorems.v")
     # ---- correspondence
     n = ctx.n(40, 400)
-    exh = ctx.n(12, 20)
+    exh = ctx.n(12, 18)
     rc, cases, e = sh2([exe, "corr", "-seed", str(ctx.seed), "-n", str(n), "-exh", str(exh)], timeout=3000)
     if rc != 0:
         raise common.CheckError("harness corr failed: " + e[-1000:])
@@ -100,6 +105,7 @@ def run(ctx):
         elif f[0] == "EVALS":
             ctx.cov["evaluations"] += int(f[1])
             ctx.notes["search_evaluations"] = int(f[1])
+    fails += hook_search(ctx, exe)
     for f in fails:
         ctx.failing_input(f[1], f[2], f[3], f[4])
     ctx.log("search: %d failing inputs" % len(fails))
@@ -125,7 +131,67 @@ def run(ctx):
                        "error and panic classes), Encode of both boxes; random ranges of mdats up to 70000 bytes (over the 32 KiB copy "
                        "buffer); a malformed stream (truncated boxes, corrupted size fields). distinct = distinct case lines with at least "
                        "one ok outcome. search: mode A bytes = mode B bytes = file slice for every valid range; header + payload = box; "
-                       "equal Size/StartPos/HeaderSize" % (n + n // 4 + 1 + n // 2 + 1, exh))
+                       "equal Size/StartPos/HeaderSize; all/sampled sample intervals x work buffers {0,1,2,3,7,8,4096} of synthesized progressive "
+                       "files (stco/co64, uniform stsz, gaps between chunks, zero-size samples, mdat first/last, large header) vs the generator's "
+                       "ground-truth sample positions; Info dump / sizes / positions of both trees (progressive and fragmented); segmenter "
+                       "copyMediaData and mp4ff-crop writeMdat through add-only hooks" % (n + n // 4 + 1 + n // 2 + 1, exh))
+
+
+def hook_search(ctx, exe):
+    """examples/segmenter copyMediaData and cmd/mp4ff-crop writeMdat (package main, reached through the add-only
+    c08_verif_test.go hooks): bytes written = the samples' / ranges' bytes taken from the generator's ground truth."""
+    import os
+    fails = []
+    rc, so, e = sh2([exe, "hookcases", "-seed", str(ctx.seed), "-n", str(ctx.n(12, 150))], timeout=600)
+    if rc != 0:
+        raise common.CheckError("harness hookcases failed: " + e[-1000:])
+    d = os.path.join(common.BUILD, "c08")
+    os.makedirs(d, exist_ok=True)
+    ran = 0
+    for kind, pkg, site in (("M", "examples/segmenter", "segmenter.copyMediaData(lazy)"),
+                            ("C", "cmd/mp4ff-crop", "mp4ff-crop.writeMdat")):
+        exp = {}
+        cf = os.path.join(d, "hook_%s.cases" % kind)
+        of = os.path.join(d, "hook_%s.out" % kind)
+        with open(cf, "w") as f:
+            for l in so.splitlines():
+                p = l.split("\t")
+                if p[0] != kind:
+                    continue
+                exp[p[1]] = p
+                f.write(" ".join(p[:-1]) + "\n")
+        tb, err = common.go_test_build(pkg, "c08_hook_" + kind)
+        if tb is None:
+            raise common.CheckError("hook test binary for %s does not build:\n%s" % (pkg, err[-1500:]))
+        if os.path.exists(of):
+            os.remove(of)
+        env = dict(common.GOENV)
+        env.update({"C08_CASES": cf, "C08_OUT": of})
+        rc, o = common.sh([tb, "-test.run", "^TestVerifC08$", "-test.count", "1"], env=env, timeout=600)
+        if rc != 0 or not os.path.exists(of):
+            raise common.CheckError("hook test for %s failed: %s" % (pkg, o[-1000:]))
+        for l in open(of):
+            p = l.split()
+            if not p:
+                continue
+            c = exp.pop(p[0])
+            ran += 1
+            want = c[-1].replace('o:-', 'o:')
+            for mode, got in zip(("in-memory", "lazy") if kind == "C" else ("lazy",), p[1:]):
+                if got != want:
+                    ends_last = ""
+                    wit = ("file=%s samples %s..%s" % (c[2][:600], c[3], c[4])) if kind == "M" else \
+                          ("file=%s byte ranges (end included) %s" % (c[2][:600], c[3]))
+                    s = site + ("(%s)" % mode if kind == "C" else "")
+                    fails.append(["FAIL", s, {"e": "error-on-valid-range", "p": "panic-on-valid-range"}.get(got, "wrong-bytes"),
+                                  wit, "bytes written differ from the file slices: got %s want %s" % (got[:60], want[:60])])
+        if exp:
+            raise common.CheckError("hook test for %s answered too few cases" % pkg)
+        for f in (cf, of):
+            os.remove(f)
+    ctx.cov["evaluations"] += ran
+    ctx.notes["hook_evaluations"] = ran
+    return fails
 
 
 def replay(ctx, path):
